@@ -75,6 +75,9 @@ def decimal_digits(run,mag,width=64):
     """digits of an unsigned magnitude term: forks on the number of digits, returns byte terms with an
     exact positional constraint (no division: sum d_i*10^i == mag over a wider bit-vector)"""
     if isinstance(mag,int): return list(str(mag).encode())
+    memo=run.ghost.setdefault('_itoa',{})
+    mk=(mag.get_id(),width)
+    if mk in memo: return list(memo[mk][1])
     W=width+8
     m=z3.ZeroExt(W-width,mag)
     maxd=len(str((1<<width)-1))
@@ -92,6 +95,7 @@ def decimal_digits(run,mag,width=64):
         run.add(z3.UGE(d,0x30),z3.ULE(d,0x39))
         total=total*10+z3.ZeroExt(W-8,d-0x30)
     run.add(total==m)
+    memo[mk]=(mag,ds)
     return ds
 def m_itoa_new(e,run,a,f): return Opaque('itoa::Buffer')
 def m_itoa_format(e,run,a,f):
